@@ -29,6 +29,10 @@ type LoopSpec struct {
 	N         int
 	Header    string
 	Invs      []*Clause
+	// Complete ("complete [label]"): the loop is left only through its header
+	// (no break/return/goto out of the body is reachable).
+	Complete      bool
+	CompleteLabel string
 	Decreases []Expr
 	DecText   string
 	DecWhen   Expr // optional guard (evaluated in the entry state): termination is claimed only under it
@@ -138,7 +142,7 @@ var stmtKeywords = map[string]bool{
 	"spec": true, "pred": true, "lemma": true, "axiom": true, "func": true, "interface": true, "functype": true,
 	"prop": true, "mode": true, "requires": true, "ensures": true, "panics": true, "modifies": true,
 	"decreases": true, "loop": true, "invariant": true, "closure": true, "trusted": true, "inline": true,
-	"ensures_assumed": true, "assert": true, "assert_if_present": true, "assert_then": true, "defines": true, "lift": true, "requires_impl": true, "using": true, "opt": true, "nosafety": true, "induction": true, "opaque_spec": true, "opaque_pred": true,
+	"ensures_assumed": true, "complete": true, "assert": true, "assert_if_present": true, "assert_then": true, "defines": true, "lift": true, "requires_impl": true, "using": true, "opt": true, "nosafety": true, "induction": true, "opaque_spec": true, "opaque_pred": true,
 }
 
 type stmt struct {
@@ -469,6 +473,16 @@ func (cs *Contracts) loadContractFile(path, importPath string, external bool) er
 			}
 			curLoop = &LoopSpec{N: n, Header: hdr}
 			curF.Loops = append(curF.Loops, curLoop)
+		case "complete":
+			if curLoop == nil {
+				return fmt.Errorf("%s:%d: complete outside loop", path, s.line)
+			}
+			_, label, _ := parseTag(s.rest)
+			curLoop.Complete = true
+			curLoop.CompleteLabel = label
+			if label == "" {
+				curLoop.CompleteLabel = "no_early_exit"
+			}
 		case "invariant":
 			if curLoop == nil {
 				return fmt.Errorf("%s:%d: invariant outside loop", path, s.line)
